@@ -546,6 +546,14 @@ def spawn_obligations(name, mir_text, lib_rs):
             k = j
     if n_ins == 0 or n_iter == 0:
         raise Unsupported(f"{name} spawn: the loop that sets the initial eventually-bits was not recognised (inserts {n_ins}, plain iterations {n_iter})")
+    # every initial state enters the visited set before the workers start
+    ins = [(i, o) for i, o in enumerate(outs) if o.kind != "panic" and any(e[0] in ("gen_insert", "generated_write") for e in o.st.events)]
+    add("C01,C02", "I-visited: the fingerprints of the initial states are inserted into the visited set (an insert into `generated` happens in spawn())", z3.unsat if ins else z3.sat)
+    for i, o in ins:
+        evs = [e[0] for e in o.st.events]
+        k = min(k for k, e in enumerate(evs) if e in ("gen_insert", "generated_write"))
+        if "spawn_worker" in evs:
+            add("C01,C02", f"path {i}: I-visited: the visited set is seeded before any worker is started", z3.unsat if k < evs.index("spawn_worker") else z3.sat)
     # the boundary filter on the initial states
     inline = any(e[0] == "within_boundary" for o in outs for e in o.st.events)
     if not closures and not inline:
